@@ -50,7 +50,8 @@ def replay(ctx, rep):
         return common.scenario_replay(ctx, rep, {'asym': asym_scenarios, 'hierarchy': hierarchy_scenarios,
                                                  'retype': retype_scenarios, 'generic': generic_retype_scenarios,
                                                  'enum': enum_edit_scenarios, 'slice': slice_scenarios,
-                                                 'illtyped': illtyped_document_scenarios})
+                                                 'illtyped': illtyped_document_scenarios,
+                                                 'homonym': homonym_document_scenarios})
     r = krun.Run(case, ['C03']).run()
     for s in r.steps:
         print(s['op'], '->', s['outcome'])
@@ -939,3 +940,159 @@ _run6 = run
 def run(ctx, out):   # noqa: F811
     _run6(ctx, out)
     illtyped_document_scenarios(ctx, out)
+
+
+def homonym_document_scenarios(ctx, out):
+    """the loaders as a mutation path, on metamodels where classifier names repeat across packages (legal: names are
+    unique per package only): two or three packages each declare a class of the SAME name whose same-named features
+    are typed differently (another data type, an enumeration of the same name with other literals, a containment /
+    reference to the package's own child class, an attribute in one and a reference in the other).  One document
+    (XMI / JSON) written by pyecore holds instances of several of them, each with values that conform to the features
+    of its OWN class.  Every conforming value is accepted: the load does not raise; and every value then observable
+    conforms to the feature of the object's own class."""
+    import os
+    import tempfile
+    from harness import common
+    common.use_repo()
+    from pyecore import ecore as E
+    from pyecore.resources import ResourceSet, URI
+    from pyecore.resources.json import JsonResource
+    rng = common.rng_for(ctx.seed, 'C03:homonym')
+    n = 48 if ctx.tier != 'thorough' else 600
+    docs = values = mixed = 0
+    DT = {'EInt': (E.EInt, [42, -7, 1], int), 'EString': (E.EString, ['42', 'true', 'x y', '1.5', 'RED'], str),
+          'EBoolean': (E.EBoolean, [True, False], bool), 'EDouble': (E.EDouble, [2.5, 42.0], float)}
+    FNAMES = ['value', 'part', 'more']
+    for it in range(n):
+        fmt = 'json' if rng.random() < 0.5 else 'xmi'
+        npk = rng.choice([2, 2, 3])
+        cname = rng.choice(['Entry', 'Item', 'Node'])
+        pkgs, entry, child, enum, feats = [], [], [], [], []
+        for k in range(npk):
+            p = E.EPackage(f'pk{k}', nsURI=f'http://verif/c03/homonym/{it}/{k}', nsPrefix=f'pk{k}')
+            En = E.EEnum('Kind', literals=[['RED', 'BLUE'], ['SMALL', 'BIG', 'RED'], ['BLUE', 'x']][k])
+            Ch = E.EClass(rng.choice(['Text', 'Num', 'Leaf']))
+            dn = rng.choice(sorted(DT))
+            Ch.eStructuralFeatures.append(E.EAttribute('v', DT[dn][0]))
+            Cl = E.EClass(cname)
+            fd = {}
+            for fn in FNAMES:
+                kind = rng.choice(['attr', 'attr', 'enum', 'cont', 'cont', 'ref'])
+                many = rng.random() < 0.3
+                if kind == 'attr':
+                    tn = rng.choice(sorted(DT))
+                    Cl.eStructuralFeatures.append(E.EAttribute(fn, DT[tn][0], upper=-1 if many else 1, unique=False))
+                    fd[fn] = ('attr', tn, many)
+                elif kind == 'enum':
+                    Cl.eStructuralFeatures.append(E.EAttribute(fn, En, upper=-1 if many else 1, unique=False))
+                    fd[fn] = ('enum', 'Kind', many)
+                else:
+                    Cl.eStructuralFeatures.append(E.EReference(fn, Ch, upper=-1 if many else 1, containment=kind == 'cont'))
+                    fd[fn] = (kind, Ch.name, many)
+            p.eClassifiers.extend([Cl, Ch, En])
+            pkgs.append(p), entry.append(Cl), child.append((Ch, dn)), enum.append(En), feats.append(fd)
+        Root = E.EClass('Root')
+        Root.eStructuralFeatures.append(E.EReference('entries', E.EObject.eClass, upper=-1, containment=True))
+        Root.eStructuralFeatures.append(E.EReference('pool', E.EObject.eClass, upper=-1, containment=True))
+        pkgs[0].eClassifiers.append(Root)
+
+        def new_child(k):
+            Ch, dn = child[k]
+            c = Ch()
+            c.v = rng.choice(DT[dn][1])
+            return c
+        root = Root()
+        for k in range(npk):                      # targets of the plain references live in the document too
+            for _ in range(2):
+                root.pool.append(new_child(k))
+        order = [rng.randrange(npk) for _ in range(rng.randrange(2, 6))]
+        if rng.random() < 0.25:
+            order = [order[0]] * len(order)       # a document using one of the classes only
+        for k in order:
+            e = entry[k]()
+            for fn, (kind, tn, many) in feats[k].items():
+                if rng.random() < 0.15:
+                    continue
+                m = rng.randrange(1, 3) if many else 1
+                if kind == 'attr':
+                    vs = [rng.choice(DT[tn][1]) for _ in range(m)]
+                elif kind == 'enum':
+                    vs = [rng.choice(list(enum[k].eLiterals)) for _ in range(m)]
+                elif kind == 'cont':
+                    vs = [new_child(k) for _ in range(m)]
+                else:
+                    vs = rng.sample([c for c in root.pool if c.eClass is child[k][0]], m)
+                if many:
+                    getattr(e, fn).extend(vs)
+                else:
+                    setattr(e, fn, vs[0])
+            root.entries.append(e)
+        hist = [['format', fmt], ['class', cname, 'children', [c.name for c, _ in child]],
+                ['features', [sorted([fn] + list(d) for fn, d in fd.items()) for fd in feats]],
+                ['entries-of-packages', order]]
+        case = {'scenario': 'homonym', 'seed': ctx.seed, 'tier': ctx.tier, 'history': hist}
+        sig = {'property': 'C03', 'clause': None, 'many': None, 'value': 'loaded-' + fmt}
+
+        def new_rset():
+            rs = ResourceSet()
+            for p in pkgs:
+                rs.metamodel_registry[p.nsURI] = p
+            rs.resource_factory['json'] = lambda uri: JsonResource(uri)
+            return rs
+        with tempfile.TemporaryDirectory() as tmp:
+            path = os.path.join(tmp, 'm.' + fmt)
+            try:
+                res = new_rset().create_resource(URI(path))
+                res.append(root)
+                res.save()
+            except Exception as e:  # noqa   (writing is not this property's subject)
+                hist.append(['save', type(e).__name__])
+                continue
+            docs += 1
+            mixed += len(set(order)) > 1
+            try:
+                lr = new_rset().get_resource(URI(path)).contents[0]
+            except Exception as e:  # noqa
+                sig['clause'] = 'conforming-refused-by-load'
+                hist.append(['load', type(e).__name__])
+                out.fail(sig, f'a {fmt} document written by pyecore, in which every value conforms to the feature of its own '
+                              f'class ({npk} classes named {cname}, entries of packages {order}), is refused: '
+                              f'{type(e).__name__}: {str(e)[:160]}', case)
+                continue
+            wrong = []
+            todo = list(lr.entries) + list(lr.pool)
+            while todo:
+                o = todo.pop()
+                for f in o.eClass.eAllStructuralFeatures():
+                    got = o.eGet(f)
+                    vs = list(got) if f.many else ([] if got is None else [got])
+                    for v in vs:
+                        values += 1
+                        et = f.eType
+                        if isinstance(f, E.EReference):
+                            v = v.force_resolve() if hasattr(v, 'force_resolve') else v
+                            good = isinstance(v, et.python_class)
+                            if f.containment:
+                                todo.append(v)
+                            shown = f'an instance of {v.eClass.ePackage.name}.{v.eClass.name}'
+                        elif isinstance(et, E.EEnum):
+                            good = any(v is l for l in et.eLiterals) or (isinstance(v, str) and v in [l.name for l in et.eLiterals])
+                            shown = repr(v)
+                        else:
+                            good = isinstance(v, et.eType)
+                            shown = repr(v)
+                        if not good:
+                            wrong.append(f'{o.eClass.ePackage.name}.{o.eClass.name}.{f.name} (declared '
+                                         f'{getattr(et.ePackage, "name", "?")}.{et.name}) holds {shown}')
+            if wrong:
+                sig['clause'] = 'nonconforming-value-stored'
+                out.fail(sig, f'after loading a {fmt} document with {npk} classes named {cname}: {wrong[:3]}', case)
+    out.coverage['homonym_documents'] = {'loaded': docs, 'mixing_same_named_classes': mixed, 'values_checked': values}
+
+
+_run7 = run
+
+
+def run(ctx, out):   # noqa: F811
+    _run7(ctx, out)
+    homonym_document_scenarios(ctx, out)
